@@ -634,6 +634,7 @@ func c13Run(c *Ctx) {
 	heapSetOpGen(c, c.N(300))   // heap_share2.go
 	c13RunLook(c)               // syntax look-alike keys, rare shapes, TMPDIR on another file system (c13_look.go)
 	c13tfRun(c)                 // the template functions of template_engine_funcs.go through real templates (c13_tplfuncs.go)
+	c13oxRun(c)                 // ExecOp, TemplateFileOp, Html2DomOp, ValOrRef / AnyVal decoding (c13_opsext.go)
 }
 
 // c13Heads / c13Tails: special beginnings and endings of imported files.
@@ -714,6 +715,7 @@ func c13NodeCount(w W) int { return wireSize(w) }
 
 func c13Eval(c *Ctx, kind string, raw []byte) {
 	c13tfEval(c, kind, raw) // c13_tplfuncs.go: the kinds "tf-…" (template functions)
+	c13oxEval(c, kind, raw) // c13_opsext.go: the kinds "ox-…"
 	switch kind {
 	case "heap-patchop":
 		heapPatchOpEval(c, raw) // heap_share2.go
